@@ -44,7 +44,7 @@ for pid in sorted(props):
                 f'executions of the real code validated {fmt_int(cov.get("traces_validated_against_impl", 0))}',
                 f'non-trivial cases {fmt_int(cov.get("distinct_nontrivial", 0))}', f'distinct outcomes {cov.get("distinct_outcomes", 0)}',
                 f'exhaustive within bounds: {"yes" if cov.get("exhaustive", True) else "NO (cap hit, see evidence)"}', f'{e.get("wall_s", 0):.1f} s']
-        out.append(f'*Last quick run*: ' + '; '.join(nums) + '.\n')
+        out.append(f'*Last {e.get("tier", "quick")} run*: ' + '; '.join(nums) + '.\n')
         if e.get('assumptions'):
             out.append('*Assumptions*: ' + ' / '.join(e['assumptions']) + '\n')
     if c.get('level_note'):
